@@ -438,8 +438,18 @@ pub fn known_signatures(id: &str) -> HashSet<String> {
 
 // ---------------------------------------------------------------- work dirs
 
+/// Work directories are private to one invocation of a check (tag = pid of the parent), so that concurrent runs of
+/// the same property do not disturb each other.
+fn run_tag() -> String {
+    std::env::var("VERIF_RUN_TAG").unwrap_or_else(|_| std::process::id().to_string())
+}
+
+fn run_root(id: &str) -> PathBuf {
+    Path::new(VERIF_ROOT).join("work").join(format!("{}.{}", id, run_tag()))
+}
+
 pub fn work_dir(id: &str, idx: usize) -> PathBuf {
-    Path::new(VERIF_ROOT).join("work").join(id).join(idx.to_string())
+    run_root(id).join(idx.to_string())
 }
 
 /// Make `<worker dir>/c` an empty directory and chdir into it. Called per case by checks that touch disk.
@@ -551,6 +561,7 @@ pub fn parent_main(def: &PropDef, tier: Tier) -> i32 {
                 .arg(idx.to_string())
                 .arg(n.to_string())
                 .env("VERIF_SEED", seed.to_string())
+                .env("VERIF_RUN_TAG", run_tag())
                 .stdin(std::process::Stdio::null())
                 .spawn()
                 .expect("spawn worker");
@@ -588,7 +599,7 @@ pub fn parent_main(def: &PropDef, tier: Tier) -> i32 {
             let _ = std::fs::remove_dir_all(&dir);
         }
     }
-    let _ = std::fs::remove_dir_all(Path::new(VERIF_ROOT).join("work").join(def.id));
+    let _ = std::fs::remove_dir_all(run_root(def.id));
 
     // ---- aggregate
     let mut evaluations = 0u64;
@@ -711,7 +722,7 @@ pub fn parent_main(def: &PropDef, tier: Tier) -> i32 {
             ));
         }
     }
-    let _ = std::fs::remove_dir_all(Path::new(VERIF_ROOT).join("work").join(def.id));
+    let _ = std::fs::remove_dir_all(run_root(def.id));
 
     // ---- committed regression inputs (corpus/<ID>/*.json): the seconds-long replay tier
     let mut corpus_replayed = 0u64;
@@ -750,7 +761,7 @@ pub fn parent_main(def: &PropDef, tier: Tier) -> i32 {
             }
         }
     }
-    let _ = std::fs::remove_dir_all(Path::new(VERIF_ROOT).join("work").join(def.id));
+    let _ = std::fs::remove_dir_all(run_root(def.id));
 
     // ---- evidence
     let wall = t0.elapsed().as_secs_f64();
@@ -897,7 +908,7 @@ pub fn replay_main(def: &PropDef, path: &str) -> i32 {
     }
     let _ = std::env::set_current_dir(VERIF_ROOT);
     let _ = std::fs::remove_dir_all(&dir);
-    let _ = std::fs::remove_dir_all(Path::new(VERIF_ROOT).join("work").join(def.id));
+    let _ = std::fs::remove_dir_all(run_root(def.id));
     if code == 0 {
         println!("replay: no violation reproduced");
     }
